@@ -84,7 +84,7 @@ _rule_named_ts = "|".join(r"(?P<t_{}>{})".format(n, expr) for n, expr in _named_
 _rule_named_ts = r"({})\s*".format(_rule_named_ts)
 
 
-@rule(_rule_named_ts + r"(uhr|h|o\'?clock)?")
+@rule(_rule_named_ts + r"((uhr|h|o\'?clock)\b)?")
 def ruleNamedHour(ts: datetime, m: RegexMatch) -> Optional[Time]:
     match = m.match
     for n, _, in _named_ts:
@@ -466,7 +466,7 @@ def _maybe_apply_am_pm(t: Time, ampm_match: str) -> Time:
 @rule(
     # match hhmm
     r"(?<!\d|\.)(?P<hour>(?:[01]\d)|(?:2[0-3]))(?P<minute>(?&_minute))"
-    r"\s*(?P<clock>uhr|h)?"  # optional uhr
+    r"\s*(?P<clock>(uhr|h)\b)?"  # optional uhr (not the first letter of a word)
     r"\s*(?P<ampm>\s*[ap]\.?m\.?)?(?!\d)"  # optional am/pm
 )
 def ruleHHMMmilitary(ts: datetime, m: RegexMatch) -> Optional[Time]:
@@ -481,7 +481,7 @@ def ruleHHMMmilitary(ts: datetime, m: RegexMatch) -> Optional[Time]:
     r"(?P<hour>(?&_hour))"  # We certainly match an hour
     # We try to match also the minute
     r"((?P<sep>:|uhr|h|\.)(?P<minute>(?&_minute)))?"
-    r"\s*(?P<clock>uhr|h)?"  # We match uhr with no minute
+    r"\s*(?P<clock>(uhr|h)\b)?"  # We match uhr with no minute (a word, not a prefix)
     r"(?P<ampm>\s*[ap]\.?m\.?)?"  # AM PM
     r"(?!\d)"
 )
@@ -493,7 +493,7 @@ def ruleHHMM(ts: datetime, m: RegexMatch) -> Time:
     return _maybe_apply_am_pm(t, m.match.group("ampm"))
 
 
-@rule(r"(?<!\d|\.)(?P<hour>(?&_hour))\s*(uhr|h|o\'?clock)")
+@rule(r"(?<!\d|\.)(?P<hour>(?&_hour))\s*(uhr|h|o\'?clock)\b")
 def ruleHHOClock(ts: datetime, m: RegexMatch) -> Time:
     return Time(hour=int(m.match.group("hour")))
 
